@@ -365,9 +365,63 @@ pub fn run(mut cx: Ctx) -> ! {
         }
         cx.stats.merge(st);
     }
+    // every script also runs free of the scheduler on real racing threads
+    {
+        use rayon::prelude::*;
+        let runs = cx.pick(3, 20);
+        let res: Vec<(String, Result<(), String>)> = list.par_iter().map(|(scn, _)| (scn.name(), free_running(scn, runs))).collect();
+        for (name, r) in res {
+            cx.stats.traces_validated += runs as u64;
+            if let Err(e) = r {
+                cx.stats.violation(format!("free-running replay: {}", e.split(':').next().unwrap_or("")), || json!({"scenario": name, "what": e}));
+            }
+        }
+    }
     cx.bound("scenarios", list.len());
     cx.bound("min_completed_preemption_bound", json!(min_completed));
     cx.extra.insert("per_scenario".into(), json!(per));
     cx.assume("scheduling points at every Mutex lock, channel send/recv, thread spawn/join; the code under test contains no unsafe and no other shared state");
     cx.finish()
+}
+
+// ---------------- binding the scheduler to reality (DESIGN.md §2.7) ----------------
+
+/// The same lifecycle script, free-running: no runtime installed, the facade is a pass-through, real
+/// OS threads race for real. Only schedule-independent clauses are judged (the caller returns, every
+/// task starts exactly once and completes); a hang shows as a timeout.
+pub fn free_running(scn: &Scn, runs: usize) -> Result<(), String> {
+    for _ in 0..runs {
+        let obs = Arc::new(Mutex::new(Obs::default()));
+        let (o2, s2) = (obs.clone(), scn.clone());
+        let h = std::thread::spawn(move || body(&s2, &o2));
+        let t0 = std::time::Instant::now();
+        while !obs.lock().unwrap().dropped {
+            if t0.elapsed() > Duration::from_secs(5) {
+                return Err("caller did not return from stop/drop within 5 s (free-running)".into());
+            }
+            std::thread::sleep(Duration::from_micros(200));
+        }
+        let _ = h.join();
+        // workers are detached: give queued tasks a bounded time to finish
+        let tasks = scn.tasks();
+        let done = |o: &Obs| {
+            tasks.iter().enumerate().all(|(i, t)| {
+                let s = o.events.iter().filter(|e| e.0 == i && e.1 == 's').count();
+                let f = o.events.iter().filter(|e| e.0 == i && e.1 == 'f').count();
+                s == 1 && (*t == Task::Panic || f == 1)
+            })
+        };
+        let t1 = std::time::Instant::now();
+        loop {
+            let o = obs.lock().unwrap().clone();
+            if done(&o) {
+                break;
+            }
+            if o.events.iter().filter(|e| e.1 == 's').count() > tasks.len() || t1.elapsed() > Duration::from_secs(5) {
+                return Err(format!("free-running outcome differs from the explored ones: events {:?}", o.events));
+            }
+            std::thread::sleep(Duration::from_micros(200));
+        }
+    }
+    Ok(())
 }
